@@ -202,7 +202,7 @@ def _fedavg_algorithm(cfg):
   import fedjax
   import jax.numpy as jnp
   import numpy as np
-  if 'alg' not in _FEDAVG_CACHE:
+  if 'alg' not in _FEDAVG_CACHE or _FEDAVG_CACHE.get('fresh_every_time'):
     def loss(params, batch, rng):
       pred = batch['x'] @ params['w'] + params['b']
       return jnp.mean((pred - batch['y'])**2)
@@ -463,6 +463,10 @@ def execute(sc):
   from vsim import boot
   from vsim.trace import Trace, Counters
   cfg = sc['config']
+  # a rebooted process rebuilds every object: in seq mode the real FedAvg algorithm is rebuilt for every incarnation;
+  # in sweep mode (hundreds of incarnations) it is rebuilt once per scenario to keep compilation affordable
+  _FEDAVG_CACHE.clear()
+  _FEDAVG_CACHE['fresh_every_time'] = sc['mode'] == 'seq'
   boot.reset_sim_seconds()
   trace = Trace(keep=False)
   viols, probes, faults = [], Counters(), Counters()
